@@ -27,6 +27,8 @@ type reactorSpec struct {
 	Decode func([]byte) error
 	// byte-level enumeration only for seeds up to this size (0 = all)
 	BytesMax int
+	// states in which every 1-2 byte string is delivered (elsewhere only the decodable ones, quick tier)
+	ShortFull map[string]bool
 }
 
 func genericUnits(sp reactorSpec, thorough bool) []*unit {
@@ -51,6 +53,11 @@ func genericUnits(sp reactorSpec, thorough bool) []*unit {
 				add(&unit{State: st, Peer: pm, Kind: "single", Msg: name, Est: 2500, gen: func(w *worker, u *unit, emit func(*caseT)) {
 					s := find(w.oth, name)
 					base := caseT{Reactor: sp.Name, State: st, Peer: pm, Msg: name}
+					{
+						c := base
+						c.Kind, c.Field, c.Class, c.Desc, c.Ch, c.raw = "roundtrip", "-", "valid", "encode/decode round trip", sp.Chans[0], s.Bytes
+						emit(&c)
+					}
 					for _, ch := range sp.Chans {
 						c := base
 						c.Kind, c.Field, c.Class, c.Desc, c.Ch, c.raw = "valid", "-", "valid", "unmodified", ch, s.Bytes
@@ -59,7 +66,8 @@ func genericUnits(sp reactorSpec, thorough bool) []*unit {
 					for _, site := range s.Sites {
 						for _, m := range mutationsFor(site, s.Root, false) {
 							c := base
-							c.Kind, c.Field, c.Class, c.Desc, c.Ch, c.raw = "single", stripIdx(site.Name), m.Class, m.Desc, sp.Chans[0], encodeNodes(applyAt(s.Root, site, m))
+							raw, mf, mc := mutate(s.Root, site, m)
+							c.Kind, c.Field, c.Class, c.Desc, c.Ch, c.raw = "single", mf, mc, m.Desc, sp.Chans[0], raw
 							emit(&c)
 						}
 					}
@@ -93,6 +101,9 @@ func genericUnits(sp reactorSpec, thorough bool) []*unit {
 			add(&unit{State: st, Peer: sp.Peers[0], Kind: "short", Msg: fmt.Sprintf("raw-%d", hi), Est: 20000, gen: func(w *worker, u *unit, emit func(*caseT)) {
 				try := func(raw []byte) {
 					derr := sp.Decode(raw)
+					if derr != nil && !thorough && sp.ShortFull != nil && !sp.ShortFull[st] {
+						return
+					}
 					for i, pm := range sp.Peers {
 						if i > 0 && derr != nil && !thorough {
 							continue
@@ -120,9 +131,9 @@ func otherUnits(thorough bool) []*unit {
 	var us []*unit
 	// ---- block sync
 	bc := reactorSpec{Name: "blockchain", States: bcStates, Peers: []string{peerKnown}, Chans: []byte{bcChan, 0x41},
-		Seeds: func(e *otherEnv) []gseed { return e.bcSeeds() },
-		Names: []string{"BlockRequest", "NoBlockResponse", "StatusRequest", "StatusResponse", "BlockResponse(1)", "BlockResponse(2)"},
-		Decode: func(b []byte) error { _, err := blockchain.DecodeMsg(b); return err }}
+		Seeds:  func(e *otherEnv) []gseed { return e.bcSeeds() },
+		Names:  []string{"BlockRequest", "NoBlockResponse", "StatusRequest", "StatusResponse", "BlockResponse(1)", "BlockResponse(2)"},
+		Decode: func(b []byte) error { _, err := blockchain.DecodeMsg(b); return err }, ShortFull: map[string]bool{bcIdle: true, bcSyncFresh: true}}
 	us = append(us, genericUnits(bc, thorough)...)
 	// blocks assembled by the peer through the public constructor (header hashes recomputed)
 	for _, st := range []string{bcSyncReq, bcSyncReq2} {
@@ -144,7 +155,7 @@ func otherUnits(thorough bool) []*unit {
 							continue
 						}
 						for _, m := range mutationsFor(site, s.Root, false) {
-							raw := encodeNodes(applyAt(s.Root, site, m))
+							raw, mf, mc := mutate(s.Root, site, m)
 							var msg bcproto.Message
 							if proto.Unmarshal(raw, &msg) != nil {
 								continue
@@ -165,7 +176,7 @@ func otherUnits(thorough bool) []*unit {
 							if bytesEq(out, raw) {
 								continue
 							}
-							emit(&caseT{Reactor: "blockchain", State: st, Peer: peerKnown, Msg: name, Kind: "rehashed", Field: stripIdx(site.Name), Class: m.Class + "(rehashed)",
+							emit(&caseT{Reactor: "blockchain", State: st, Peer: peerKnown, Msg: name, Kind: "rehashed", Field: mf, Class: mc + "(rehashed)",
 								Desc: m.Desc + ", header hashes recomputed by types.NewBlock", Ch: bcChan, raw: out})
 						}
 					}
@@ -174,8 +185,8 @@ func otherUnits(thorough bool) []*unit {
 	}
 	// ---- transaction pool
 	tx := reactorSpec{Name: "txpool", States: txStates, Peers: []string{peerKnown, peerFresh}, Chans: []byte{txChan, 0x31},
-		Seeds: func(e *otherEnv) []gseed { return e.txSeeds() },
-		Names: []string{"Txs", "PooledTransactions", "PooledTransactionHashes", "RequestPooledTransactions"},
+		Seeds:  func(e *otherEnv) []gseed { return e.txSeeds() },
+		Names:  []string{"Txs", "PooledTransactions", "PooledTransactionHashes", "RequestPooledTransactions"},
 		Decode: func(b []byte) error { _, err := tx_pool.VerifC18Decode(b); return err }}
 	us = append(us, genericUnits(tx, thorough)...)
 	for _, st := range txStates {
@@ -220,25 +231,28 @@ func otherUnits(thorough bool) []*unit {
 		Decode: func(b []byte) error { _, err := evidence.VerifC18Decode(b); return err }}
 	us = append(us, genericUnits(ev, thorough)...)
 	for _, st := range evStates {
-		st := st
-		us = append(us, &unit{ID: "evidence/resigned/" + st, Reactor: "evidence", State: st, Peer: peerFresh, Kind: "resigned", Msg: "EvidenceList", Est: 50000,
-			gen: func(w *worker, u *unit, emit func(*caseT)) {
-				s := w.oth.evSeeds()[0]
-				key := w.oth.source().others()[0]
-				for _, site := range s.Sites {
-					if site.F.Name == "signature" {
-						continue
-					}
-					for _, m := range mutationsFor(site, s.Root, false) {
-						raw := resignEvidence(encodeNodes(applyAt(s.Root, site, m)), key)
-						if raw == nil {
+		for chunk := 0; chunk < 6; chunk++ {
+			st, chunk := st, chunk
+			us = append(us, &unit{ID: fmt.Sprintf("evidence/resigned/%s/%d", st, chunk), Reactor: "evidence", State: st, Peer: peerFresh, Kind: "resigned", Msg: "EvidenceList", Est: 12000,
+				gen: func(w *worker, u *unit, emit func(*caseT)) {
+					s := w.oth.evSeeds()[0]
+					key := w.oth.source().others()[0]
+					for si, site := range s.Sites {
+						if site.F.Name == "signature" || si%6 != chunk {
 							continue
 						}
-						emit(&caseT{Reactor: "evidence", State: st, Peer: peerFresh, Msg: "EvidenceList", Kind: "resigned", Field: stripIdx(site.Name), Class: m.Class + "(signed)",
-							Desc: m.Desc + ", both votes then signed by the accused validator", Ch: evChan, raw: raw})
+						for _, m := range mutationsFor(site, s.Root, false) {
+							raw0, mf, mc := mutate(s.Root, site, m)
+						raw := resignEvidence(raw0, key)
+							if raw == nil {
+								continue
+							}
+							emit(&caseT{Reactor: "evidence", State: st, Peer: peerFresh, Msg: "EvidenceList", Kind: "resigned", Field: mf, Class: mc + "(signed)",
+								Desc: m.Desc + ", both votes then signed by the accused validator", Ch: evChan, raw: raw})
+						}
 					}
-				}
-			}})
+				}})
+		}
 	}
 	// ---- peer exchange
 	px := reactorSpec{Name: "pex", States: pexStates, Peers: []string{peerFresh}, Chans: []byte{pexChan, 0x01},
